@@ -1,47 +1,16 @@
-// VERIF-REPLAY property=C16 harness=mutc_offbyone_int_rng file=mutc.rs
-// failed check: ""mutator result outside its documented contract""
+// VERIF-REPLAY property=C16 harness=mutc_offbyone_int_rng file=mutc.rs variant=-
+// failed check: [KANI_CHECK_ID_pickle_fuzzer.2144bc5e1feb0391::pickle_fuzzer_0] "mutator result outside its documented contract"
 // bounds: OffByOneMutator::mutate_int: wrapping +-1; every argument value; rate symbolic in [0,1]; all PRNG word streams
 // The values below are the SAT solver's assignment to every kani::any() of the harness; the test runs
 // the same harness body natively (real std/hashbrown/rand, no stubs) via `cargo kani playback`.
 #[test]
-fn kani_concrete_playback_mutc_offbyone_int_rng_2950819612962146766() {
+fn kani_concrete_playback_mutc_offbyone_int_rng_cbmc() {
     let concrete_vals: Vec<Vec<u8>> = vec![
-        // 0
         vec![0, 0, 0, 0],
-        // 0
         vec![0, 0, 0, 0],
-        // 0
         vec![0, 0, 0, 0],
-        // 0
-        vec![0, 0, 0, 0],
-        // 0
-        vec![0, 0, 0, 0],
-        // 0
-        vec![0, 0, 0, 0],
-        // 0
-        vec![0, 0, 0, 0],
-        // 0
-        vec![0, 0, 0, 0],
-        // 0
-        vec![0, 0, 0, 0],
-        // 0
-        vec![0, 0, 0, 0],
-        // 0
-        vec![0, 0, 0, 0],
-        // 0
-        vec![0, 0, 0, 0],
-        // 0
-        vec![0, 0, 0, 0],
-        // 0
-        vec![0, 0, 0, 0],
-        // 0
-        vec![0, 0, 0, 0],
-        // 0
-        vec![0, 0, 0, 0],
-        // -2147483648
         vec![0, 0, 0, 128],
-        // 1.491668e-154
-        vec![0, 0, 0, 0, 0, 0, 0, 32],
+        vec![0, 0, 0, 0, 0, 0, 0, 32]
     ];
     kani::concrete_playback_run(concrete_vals, mutc_offbyone_int_rng);
 }
